@@ -109,6 +109,16 @@ def oracle(r):
     return None
 
 
+def complete_packet_cases(chk, per_kind, combos, npk=10):
+    """cases of the c01 stream: valid generated set-ups (encoder-like and wild value ranges) followed by complete audio packets"""
+    from . import c01 as C01, vfcommon as V2
+    out = []
+    for sane in (True, False):
+        for su in V2.valid_setups(chk.rng, per_kind, combos=combos, sane=sane, channels=[1, 2, 3, 3, 6]):
+            out.append(C01.gen_case(chk.rng, 600000 + len(out), su, npk))
+    return out
+
+
 def run(chk):
     theorems = vlib.theorem_names("C02")
     broken = chk.proof_side(theorems)
@@ -141,11 +151,7 @@ def run(chk):
     # complete audio packets (the c01 generator: every floor/residue/codebook path walked to its end, residue ranges beyond half a block, 3-6
     # channels with floors in use) over valid set-ups with encoder-like and with wild value ranges — library only, sanitizer build: the random
     # packets above rarely get past the floor decode
-    from . import c01 as C01, vfcommon as V2
-    pk_cases = []
-    for sane in (True, False):
-        for j, su in enumerate(V2.valid_setups(chk.rng, 70 if chk.tier == "quick" else 700, combos=[(6, 6), (6, 8), (7, 9), (8, 8), (6, 10)], sane=sane, channels=[1, 2, 3, 3, 6])):
-            pk_cases.append(C01.gen_case(chk.rng, 600000 + len(pk_cases), su, 10))
+    pk_cases = complete_packet_cases(chk, 70 if chk.tier == "quick" else 700, [(6, 6), (6, 8), (7, 9), (8, 8), (6, 10)])
     pres = vlib.run_harness_only("c01", pk_cases, variant="san", timeout=1800)
     pc = [dict(r, m=None, rc_m=0, err_m="") for r in pres if r["c"] is None or (r["rc_c"] != 0 and r["err_c"])]
     crash += pc
